@@ -315,15 +315,17 @@ MANIFEST_TEXT["C07"] = dict(engine="E-input", design_ref="DESIGN.md §4 C07",
     level_text="Both directions for every documented type over all small structures and boundary-directed families; this is the only check that a change applied symmetrically to serialize and load cannot hide from.",
     level_note="Trusts the independent codec as a faithful reading of the document.")
 
-C08_DRIVERS = ["c01", "c02", "c03", "c04", "c05", "c09", "c10", "c13", "c15", "c06", "c19"]
+C08_DRIVERS = ["c08x", "c01", "c02", "c03", "c04", "c05", "c09", "c10", "c13", "c15", "c06", "c19"]
 PROPS["C08"] = dict(
     monitor=True, drivers=C08_DRIVERS, builds=["rel", "native", "dbg"], extra_builds={"thorough": ["asan"]}, level="exploration",
-    rule="Monitor over E-input / E-hist: the drivers of C01-C06, C09, C10, C13, C15 and C19 (structures built through the safe API AND their loaded copies; every query with the extreme-argument set A(.); every iterator call history; "
+    rule="(1) Own space (driver c08x): safe call sequences whose ANSWERS no property specifies but which must stay inside the buffers - conversions from every small multiset sparse vector (incl. overfull) to the other types followed by every query "
+         "with in-range and extreme arguments, zero-side queries on multisets, every query on bitvectors with each of the 8 support subsets (built and loaded), RawVector / IntVector accessors and setters at A(len), and EVERY mapped view type at EVERY "
+         "offset of library-written files (singles and pairs of catalogue values): a view is refused or lies inside the map. (2) Monitor over E-input / E-hist: the drivers of C01-C06, C09, C10, C13, C15 and C19 (structures built through the safe API AND their loaded copies; every query with the extreme-argument set A(.); every iterator call history; "
          "mapped views at good and bad offsets) are re-run in monitor mode with the bounds monitor H1 compiled into the library: every unchecked access on the query paths (low_set_unchecked, high_set_unchecked, bits::select and its two table reads, "
          "RawVector / RawVectorMapper::word_unchecked, RankSupport::rank_unchecked) first checks its index and panics with the marker VERIF-OOB. Verdict = a VERIF-OOB panic or a reproducible fatal signal inside a library call, in builds with and without "
          "overflow checks and with and without BMI2; wrong answers and ordinary panics are counted but ignored here (they belong to the other properties). Thorough adds an AddressSanitizer build with the hooks OFF (nightly), whose reports are verdicts too. "
          "Distinct non-trivial = the drivers' distinct cases; bounds_monitor_hits shows the monitor was live.",
-    bounds={"quick": "the quick bounds of the eleven drivers x 3 builds", "thorough": "the thorough bounds of the eleven drivers x 3 builds + AddressSanitizer"},
+    bounds={"quick": "c08x: multisets over universes <= 4 with <= 5 values, bitvectors <= 5 bits x 8 subsets, ~130 files probed at every offset; plus the quick bounds of the eleven other drivers; x 3 builds", "thorough": "c08x: universes <= 6 / 6 values, bitvectors <= 7 bits, ~1 000 files; plus the thorough bounds of the eleven other drivers; x 3 builds + AddressSanitizer"},
     unsafe_inventory_expected=19,
     timeout={"quick": 1200, "thorough": 6 * 3600},
     assumptions=["an out-of-bounds access through a site outside the H1 inventory is only seen by the debug build's std precondition checks (abort) and the ASan pass, and only if it leaves the allocation",
